@@ -190,7 +190,7 @@ def run(ctx):
 				link.append([min(a, b), max(a, b), h])
 				live.remove(a); live.remove(b); live.append(m + r)
 			sub({'kind': 'convert', 'n': m, 'link': link}, 'convert')
-		for j in range(ctx.q(60, 1200)):
+		for j in range(ctx.q(200, 1500)):
 			if not ctx.time_left(0.92):
 				break
 			k = rng.choice([2, 2, 3, 4, 5, 7, min(n, 10)])
